@@ -50,6 +50,7 @@ struct CaseSpec {
 }
 
 static SAVE_COUNTER: AtomicUsize = AtomicUsize::new(0);
+static TIMEOUTS_SEEN: AtomicUsize = AtomicUsize::new(0);
 const TARGET_VERBS: [&str; 4] = ["stop", "stream_change_window", "stream_binary_search", "stream_search"];
 
 fn j(v: Value) -> String {
@@ -413,7 +414,9 @@ fn run_case(port: u16, case: usize, cs: &CaseSpec, files: &Files, rng: &mut Rng)
     let mut sess = Session { handles: Vec::new(), old_id: 2_000_000_008, last_id: 0 };
     let mut pending: std::collections::VecDeque<Sent> = Default::default();
     let mut file_msgs = 0u64;
-    let reply_wait = Duration::from_secs(60);
+    // generous wait for a reply - but once several sessions of this run have timed out (each is a violation already: the run
+    // fails in any case) the remaining ones wait less, so that a server that answers nothing does not cost hours
+    let reply_wait = Duration::from_secs(match TIMEOUTS_SEEN.load(Ordering::SeqCst) { 0..=5 => 60, 6..=20 => 10, _ => 2 });
     let mut steps = cs.steps.clone();
     let mut s = step("unknown", "sentinel", "");
     s.exp = "unknown".into();
@@ -500,6 +503,7 @@ fn run_case(port: u16, case: usize, cs: &CaseSpec, files: &Files, rng: &mut Rng)
                 }
                 Got::Timeout => {
                     // no frame at all for `reply_wait` although commands are unanswered
+                    TIMEOUTS_SEEN.fetch_add(1, Ordering::SeqCst);
                     out.ev(json!({"ev":"timeout","pending":pending.len()}));
                     dead = true;
                     break 'outer;
